@@ -351,8 +351,8 @@ class Runner:
 # ----------------------------------------------------------------------------------------------- programs
 def bounds(tier):
     if tier == "thorough":
-        return {"L1": 6, "L2": 5, "Lb": 4, "refs": ("cur", "K0", "prev"), "probe_all": True, "pair_cap": 60000,
-                "route_cap": 400}
+        return {"L1": 7, "L2": 5, "Lb": 4, "refs": ("cur", "K0", "prev"), "probe_all": False, "pair_cap": 40000,
+                "route_cap": 120}
     return {"L1": 6, "L2": 4, "Lb": 3, "refs": ("cur", "K0"), "probe_all": False, "pair_cap": 12000, "route_cap": 40}
 
 
